@@ -282,16 +282,41 @@ class Pipeline:
                     pass
         return stats
 
-    def run_impl(self, cases_path, out_path):
-        with open(cases_path) as fin, open(out_path, "w") as fout:
-            r = run([self.bin, "run"] + self.extra_args, stdin=fin, stdout=fout, timeout=7200)
-        return r.returncode, r.stderr
+    def run_impl(self, cases_path, out_path, timeout=7200, line_flush=False):
+        """Returns (rc, stderr); rc = -9 when the harness had to be killed after `timeout` seconds."""
+        env = {"VERIF_LINE_FLUSH": "1"} if line_flush else None
+        try:
+            with open(cases_path) as fin, open(out_path, "w") as fout:
+                r = run([self.bin, "run"] + self.extra_args, stdin=fin, stdout=fout, timeout=timeout, env=env)
+            return r.returncode, r.stderr
+        except subprocess.TimeoutExpired:
+            return -9, f"harness killed after {timeout}s (hang)"
+
+    def pinpoint_crash(self, cases_path, tag, timeout):
+        """The harness died or hung: re-run line-flushed and return (index, case) of the first unanswered case."""
+        out = os.path.join(self.workdir, f"{tag}.pin")
+        rc, err = self.run_impl(cases_path, out, timeout=timeout, line_flush=True)
+        n_out = sum(1 for _ in open(out))
+        with open(cases_path) as f:
+            for k, line in enumerate(f):
+                if k == n_out:
+                    return k, line.rstrip("\n"), rc, err
+        return None, None, rc, err
 
     def run_model(self, cases_path, out_path):
         with open(cases_path) as fin, open(out_path, "w") as fout:
             r = run([self.drv], stdin=fin, stdout=fout, timeout=7200)
         if r.returncode != 0:
             raise Machinery(f"model driver failed rc={r.returncode}: {r.stderr[-2000:]}")
+
+    def eval_model_only(self, case):
+        cp = os.path.join(self.workdir, "crash.model.cases")
+        mp = os.path.join(self.workdir, "crash.model.out")
+        with open(cp, "w") as f:
+            f.write(case + "\n")
+        self.run_model(cp, mp)
+        lines = open(mp).read().split("\n")
+        return parse_model(lines[0]) if lines else None
 
     def eval_cases(self, cases, tag="tmp"):
         """Evaluate a small list of case lines; returns list of dicts."""
@@ -301,7 +326,7 @@ class Pipeline:
         with open(cp, "w") as f:
             for c in cases:
                 f.write(c + "\n")
-        rc, err = self.run_impl(cp, ip)
+        rc, err = self.run_impl(cp, ip, timeout=120)
         self.run_model(cp, mp)
         il = open(ip).read().split("\n")
         ml = open(mp).read().split("\n")
